@@ -423,7 +423,7 @@ func main() {
 	propsFlag := flag.String("props", "", "comma separated properties (default all)")
 	keep := flag.Bool("keep", false, "keep the emitted packages")
 	budgetFlag := flag.Duration("budget", 0, "wall-clock budget of the run (default 110s quick, 560s thorough)")
-	floatKeys := flag.Bool("floatkeys", false, "also generate map[float, container] shapes (known defect class)")
+	floatKeys := flag.Bool("floatkeys", true, "also generate map[float, container] shapes (decoded wrongly under NaN keys before fix 07924b4)")
 	_ = flag.String("repo", "/repo", "repository root (the harness module replaces github.com/200sc/bebop with /repo)")
 	replay := flag.String("replay", "", "re-run the single case of a failure record (JSON file) against the current tree")
 	flag.Parse()
